@@ -78,6 +78,16 @@ pub fn check(cfg: &Cfg, cap: usize, max_entry: usize, ops: &[String], outs: &[St
             v.extend(extra);
         }
     }
+    // C13: in a process with two live instances (different data directories) every mismatch of one instance's
+    // stream, counts or reclamation is (also) a failure of isolation
+    if ops.iter().any(|op| op.starts_with("B ")) {
+        let extra: Vec<Violation> = v
+            .iter()
+            .filter(|x| matches!(x.prop, "C01" | "C02" | "C03" | "C15" | "C06" | "C12" | "ANY"))
+            .map(|x| Violation { prop: "C13", line: x.line, msg: x.msg.clone() })
+            .collect();
+        v.extend(extra);
+    }
     // C04: a rejected append must leave no trace. Any delivery/count mismatch that follows a rejected
     // append or batch in the same program is (also) a violation of C04.
     let first_reject = ops.iter().zip(outs.iter()).position(|(op, out)| (op.starts_with("append") || op.starts_with("batch")) && out.starts_with("err:"));
@@ -96,7 +106,8 @@ fn check_inner(cfg: &Cfg, cap: usize, ops: &[String], outs: &[String]) -> Vec<Vi
     let mut v = Vec::new();
     let strict = cfg.mode == "strict";
     let mut topics: HashMap<String, TopicSt> = HashMap::new();
-    let mut opened = 0usize;
+    // per instance (A = operations without prefix, B = operations prefixed with `B`): number of opens so far
+    let mut opened_all = [0usize; 2];
     // process deaths seen so far inside a write / inside a consuming read
     let mut crashed_w = false;
     let mut crashed_r = false;
@@ -108,6 +119,15 @@ fn check_inner(cfg: &Cfg, cap: usize, ops: &[String], outs: &[String]) -> Vec<Vi
         if t.is_empty() {
             continue;
         }
+        // operations on the second instance of the process: its topics are its own (C13)
+        let inst_b = t[0] == "B";
+        let t: Vec<&str> = if inst_b { t[1..].to_vec() } else { t };
+        if t.is_empty() {
+            continue;
+        }
+        let wi = inst_b as usize;
+        let tk = |s: &str| -> String { if inst_b { format!("B/{}", s) } else { s.to_string() } };
+        let opened = opened_all[wi];
         let line = k + 1;
         // C02: `trks; <non-consuming batch read>; trks` - the tracker tuples of every WAL file must be unchanged
         if t[0] == "trks" && k >= 2 && ops[k - 2] == "trks" {
@@ -120,14 +140,14 @@ fn check_inner(cfg: &Cfg, cap: usize, ops: &[String], outs: &[String]) -> Vec<Vi
             // the process died inside this operation (C07/C08/C09): what it was doing may or may not have happened
             match t[0] {
                 "append" | "batch" => {
-                    let st = topics.entry(t[1].to_string()).or_insert_with(|| TopicSt::default());
+                    let st = topics.entry(tk(t[1])).or_insert_with(|| TopicSt::default());
                     st.clean = false;
                     let es = if t[0] == "append" { vec![Desc::parse(t[2])] } else { parse_batch(t[2]) };
                     st.maybe = Some(es);
                     crashed_w = true;
                 }
                 "next" | "bread" => {
-                    let st = topics.entry(t[1].to_string()).or_insert_with(|| TopicSt::default());
+                    let st = topics.entry(tk(t[1])).or_insert_with(|| TopicSt::default());
                     let cp = if t[0] == "next" { t[2] == "1" } else { t[3] == "1" && t[4] == "-" };
                     if cp {
                         // only the read in flight may go either way
@@ -152,9 +172,10 @@ fn check_inner(cfg: &Cfg, cap: usize, ops: &[String], outs: &[String]) -> Vec<Vi
                 if out != "ok" {
                     v.push(Violation { prop: "C06", line, msg: format!("open failed: {}", out) });
                 }
-                opened += 1;
+                opened_all[wi] += 1;
+                let opened = opened_all[wi];
                 if opened > 1 && !strict {
-                    for st in topics.values_mut() {
+                    for (_name, st) in topics.iter_mut().filter(|(n, _)| n.starts_with("B/") == inst_b) {
                         let hi = st.cands.iter().max().copied().unwrap_or(0);
                         st.cands = (0..=hi).collect();
                     }
@@ -162,7 +183,7 @@ fn check_inner(cfg: &Cfg, cap: usize, ops: &[String], outs: &[String]) -> Vec<Vi
                 // markers: a reopen must report the state of the last returned call (C17)
             }
             "append" | "batch" => {
-                let st = topics.entry(t[1].to_string()).or_insert_with(|| TopicSt::default());
+                let st = topics.entry(tk(t[1])).or_insert_with(|| TopicSt::default());
                 // the dirty mark is set by the call whether or not the append succeeds
                 st.clean = false;
                 if out == "ok" {
@@ -177,7 +198,7 @@ fn check_inner(cfg: &Cfg, cap: usize, ops: &[String], outs: &[String]) -> Vec<Vi
             }
             "next" => {
                 let cp = t[2] == "1";
-                let st = topics.entry(t[1].to_string()).or_insert_with(|| TopicSt::default());
+                let st = topics.entry(tk(t[1])).or_insert_with(|| TopicSt::default());
                 let got = if out == "none" { None } else { parse_entry(out) };
                 if out != "none" && (got.is_none() || got.as_ref().unwrap().1 != 0) {
                     v.push(Violation { prop: "C01", line, msg: format!("`{}` -> {} (not an appended payload)", op, out) });
@@ -209,7 +230,7 @@ fn check_inner(cfg: &Cfg, cap: usize, ops: &[String], outs: &[String]) -> Vec<Vi
                 let max: usize = t[2].parse().unwrap();
                 let cp = t[3] == "1";
                 let stateless = t[4] != "-";
-                let st = topics.entry(t[1].to_string()).or_insert_with(|| TopicSt::default());
+                let st = topics.entry(tk(t[1])).or_insert_with(|| TopicSt::default());
                 if stateless {
                     // entries come as digests `~len:s1:s2` of the returned bytes
                     let Some(inner) = out.strip_prefix('[').and_then(|x| x.strip_suffix(']')) else {
@@ -286,7 +307,7 @@ fn check_inner(cfg: &Cfg, cap: usize, ops: &[String], outs: &[String]) -> Vec<Vi
                 }
             }
             "count" => {
-                let st = topics.entry(t[1].to_string()).or_insert_with(|| TopicSt::default());
+                let st = topics.entry(tk(t[1])).or_insert_with(|| TopicSt::default());
                 if let Some(es) = st.maybe.take() {
                     // which prefix of the interrupted operation's entries was recovered?
                     let got = out.parse::<usize>().ok();
@@ -324,11 +345,11 @@ fn check_inner(cfg: &Cfg, cap: usize, ops: &[String], outs: &[String]) -> Vec<Vi
                 }
             }
             "mark" => {
-                let st = topics.entry(t[1].to_string()).or_insert_with(|| TopicSt::default());
+                let st = topics.entry(tk(t[1])).or_insert_with(|| TopicSt::default());
                 st.clean = t[2] == "clean";
             }
             "isclean" => {
-                let st = topics.entry(t[1].to_string()).or_insert_with(|| TopicSt::default());
+                let st = topics.entry(tk(t[1])).or_insert_with(|| TopicSt::default());
                 let exp = if st.clean { "1" } else { "0" };
                 if out != exp {
                     v.push(Violation { prop: "C17", line, msg: format!("`{}` -> {} but the last change set clean={}", op, out, st.clean) });
